@@ -185,6 +185,16 @@ Theorem DSIG_canonical_bytes_tokens : forall p, c14n_wf_elem p = true ->
 Proof. exact canonical_bytes_read_back. Qed.
 Print Assumptions DSIG_canonical_bytes_tokens.
 
+(* the second re-read: goxmldsig decodes the canonical SignedInfo bytes with xml.Unmarshal (a fresh decoder's Token() loop), not
+   with etree.  On canonical bytes the element that loop consumes -- under either CharsetReader setting -- is the read-back tree
+   without attribute de-duplication, and for an element without repeated attribute names exactly what read_tree returns: the one
+   function [reparse_model] stands for both re-reads *)
+Theorem DSIG_canonical_bytes_unmarshal_reads_the_same_element : forall c p, c14n_wf_elem p = true ->
+  token_view_with c (c14n_write p) = Ok (normalise_raw p) /\
+  (dup_free p = true -> token_view_with c (c14n_write p) = read_tree (c14n_write p)).
+Proof. exact canonical_bytes_token_view. Qed.
+Print Assumptions DSIG_canonical_bytes_unmarshal_reads_the_same_element.
+
 (* DSIG_sound with both oracles instantiated: accepted => Covered (over the two models), and "result = parse of exactly those
    bytes" becomes "result = normalise (prepared form of the transformed element)": the accepted tree is a function of the
    presented tree (through findSignature / transform / the preparation) and of the crypto oracles' verdicts only *)
